@@ -7,6 +7,9 @@ pub mod c04;
 pub mod c06;
 pub mod c07;
 pub mod c09;
+pub mod c10;
+pub mod c11;
+pub mod c12;
 pub mod c13;
 pub mod c14;
 pub mod c15;
@@ -18,7 +21,7 @@ pub fn c13_generic(path: &str) -> String {
 	p.split('.').filter(|c| !(c.len() == 2 && c.starts_with('P'))).map(|c| if c.starts_with("item[") { "item[k]" } else { c }).collect::<Vec<_>>().join(".")
 }
 
-pub const IDS: &[&str] = &["C01", "C02", "C03", "C04", "C06", "C07", "C09", "C13", "C14", "C15", "C20"];
+pub const IDS: &[&str] = &["C01", "C02", "C03", "C04", "C06", "C07", "C09", "C10", "C11", "C12", "C13", "C14", "C15", "C20"];
 
 pub fn get(id: &str) -> Option<Box<dyn Monitor>> {
 	Some(match id {
@@ -29,6 +32,9 @@ pub fn get(id: &str) -> Option<Box<dyn Monitor>> {
 		"C06" => Box::new(c06::C06::new()),
 		"C07" => Box::new(c07::C07::new()),
 		"C09" => Box::new(c09::C09),
+		"C10" => Box::new(c10::C10::new()),
+		"C11" => Box::new(c11::C11::new()),
+		"C12" => Box::new(c12::C12::new()),
 		"C13" => Box::new(c13::C13::new()),
 		"C15" => Box::new(c15::C15),
 		"C20" => Box::new(c20::C20),
